@@ -22,6 +22,7 @@ def check(chk, thorough=False):
     chk.run('C12.c', 'R-NOPATH', 'the chain runner stops running steps after a step raised', lambda ob: c12c(tree, ob), floor=1)
     chk.run('C12.d', 'R-FLOW', 'verdicts are fail-closed (= C03.c for BIB, C16.b for BCB); the verifier checks the actual target data (= C03.a)', lambda ob: (c03c(tree, ob, 'bib'), c16b(tree, ob), c03a(tree, ob, 'apply_bib')), floor=20)
     chk.run('C12.e', 'R-ITER', 'every security block of the bundle is visited: the loops are not invalidated by removal of accepted blocks', lambda ob: c12e(tree, ob), floor=2)
+    chk.run('C12.g', 'R-FLOW', 'duplicate parameter / result ids are really detected: the id collections compared with their de-duplicated size are lists', lambda ob: c12g(tree, ob), floor=2)
     chk.run('C12.f', 'R-TYPE', 'the recorded deletion reason is a reason code (integer) on every path', lambda ob: c12f(tree, ob), floor=2)
 
 
@@ -81,6 +82,11 @@ def c12b(tree, ob):
         fsucc = [s for (s, lab) in c.succ if lab is False][0]
         # failure branch: deliver withdrawn, delete recorded, truthy return
         dels = [n for n in walk_local(fv.func) if isinstance(n, ast.Delete) and src(n.targets[0]) == "ctr.actions['deliver']"]
+        # equivalent idiom: ctr.actions.pop('deliver', None)
+        dels += [x._parent for x in calls_in(fv.func) if pm("ctr.actions.pop('deliver', None)", x) is not None and isinstance(x._parent, ast.Expr)]
+        wrong = [x for x in calls_in(fv.func) if isinstance(x.func, ast.Attribute) and src(x.func.value) == 'ctr.actions' and x.func.attr == 'pop' and x.args and const_str(x.args[0]) != 'deliver']
+        for x in wrong:
+            ob.violate(SEC, q, src(x), 'the action withdrawn on a security failure is {!r}, not \'deliver\': the failed bundle stays marked delivered (and is reported so)'.format(const_str(x.args[0])), x)
         recs = [x for x in method_calls(fv.func, 'record_action', 'ctr') if x.args and const_str(x.args[0]) == 'delete']
         rets = [r for r in walk_local(fv.func) if isinstance(r, ast.Return) and fv.has(r, 'failure', True)]
         okd = dels and fv.cfg.must_pass(tsucc, fv.cfg.exit, {fv.node(d) for d in dels} | {n for n in fv.cfg.nodes if n.kind == 'cond' and src(n.ast) == "'deliver' in ctr.actions"}, include_exc=False)[0]
@@ -122,8 +128,10 @@ def c12b(tree, ob):
             ob.violate(SEC, q, 'for ... in ' + src(itv), 'the loop does not visit the {} blocks of the bundle'.format(cls), lp)
         # unknown context
         unk = [st for (st, v) in norm.local_assigns(fv.func, 'result') if fv.has(st, 'ctx is None', True)]
-        if not unk or 'UNKNOWN_SEC' not in src(unk[0].value):
-            ob.violate(SEC, q, 'ctx is None -> UNKNOWN_SEC', 'a block with an unknown security context is not treated as a failure', lp)
+        if not unk or any('UNKNOWN_SEC' not in src(u.value) for u in unk):
+            bad = next((u for u in unk if 'UNKNOWN_SEC' not in src(u.value)), lp)
+            ob.violate(SEC, q, 'ctx is None -> ' + (src(bad.value) if bad is not lp else 'nothing'), 'a block with an unknown security context is not (always) treated as a failure: '
+                       'such a block is ignored and the bundle is delivered unverified', bad)
         else:
             ob.site(SEC, unk[0], meth + ': unknown context -> UNKNOWN_SEC')
         ctxd = fv.value_at(ast.parse('ctx', mode='eval').body, a, depth=1)
@@ -192,6 +200,30 @@ def c12e(tree, ob):
                        'a fully accepted security block is removed from the very list being iterated (block_type() returns the container index), so the next security block is never verified and the bundle is delivered', lp, [wit])
         else:
             ob.site(SEC, lp, meth + ': loop safe against removal of accepted blocks')
+
+
+def c12g(tree, ob):
+    fv = FuncView(tree, SEC, 'CoseSecOpCtx.check_secblk')
+    n = 0
+    for node in fv.cfg.nodes:
+        if node.kind != 'cond':
+            continue
+        got = pm('len(set($x)) != len($x)', node.ast) or pm('len($x) != len(set($x))', node.ast)
+        if got is None:
+            continue
+        n += 1
+        ob.require(isinstance(got['x'], ast.Name), 'duplicate test on a non-local')
+        rd = fv.reaching_defs(got['x'].id, node.ast)
+        kinds = [type(v).__name__ for (_s, v) in rd if v is not None]
+        if rd and all(isinstance(v, ast.ListComp) or (isinstance(v, ast.Call) and dotted(v.func) == 'list') for (_s, v) in rd):
+            ob.site(SEC, node.ast, 'duplicate ids detected by comparing a list with its set')
+        else:
+            ob.violate(SEC, fv.qual, '{} built as {}'.format(got['x'].id, '/'.join(kinds) or '?'), 'the collection compared with its de-duplicated size is not a list (e.g. already a set): '
+                       'the comparison is always equal and duplicate parameter / result ids go undetected', node.ast)
+        rets = [r for r in walk_local(fv.func) if isinstance(r, ast.Return) and fv.has(r, norm.atom(node.ast)[0], not norm.atom(node.ast)[1]) is False]
+    fails = [r for r in walk_local(fv.func) if isinstance(r, ast.Return) and isinstance(r.value, ast.Constant) and r.value.value is False]
+    if n < 2 or len(fails) < 2:
+        ob.violate(SEC, fv.qual, 'duplicate checks', 'parameter ids and per-target result ids are not both checked for duplicates', fv.func)
 
 
 def c12f(tree, ob):
